@@ -4,25 +4,25 @@ import json, sys
 pid, tag = sys.argv[1], sys.argv[2]
 USED = {
  "C01": "truncating the flat group size product to the numInGroup type; filling numVarDataFields with the group count; advancing the validator's running offset by += instead of = for composite members with explicit offsets; a wrong row in the get_underlying_size table used for the cursor accessors' running offset",
- "C02": "advancing the validator's running offset by += instead of = for composite members with explicit offsets; deriving the accessor of the 3rd+ sibling group from the first group; messages_compiler caching an uninitialised byte order for the non-cursor field accessors; flat_group_base::end() built as begin() + difference_type(size()) (used twice already)",
- "C03": "using the field's own presence attribute instead of the actual presence when deciding whether an entry is constant-only; emitting the ordinary (sizeof-advancing) cursor accessor for a last field of built-in primitive type; member-less visit_children advancing with += block_length instead of level start + block length (used three times already, do NOT use visit_children of member-less levels again)",
+ "C02": "advancing the validator's running offset by += instead of = for composite members with explicit offsets; deriving the accessor of the 3rd+ sibling group from the first group; messages_compiler caching an uninitialised byte order for the non-cursor field accessors; flat_group_base::end() built as begin() + difference_type(size()) (used twice already); a wrong row (double) in the get_underlying_size table",
+ "C03": "using the field's own presence attribute instead of the actual presence when deciding whether an entry is constant-only; emitting the ordinary (sizeof-advancing) cursor accessor for a last field of built-in primitive type; member-less visit_children advancing with += block_length instead of level start + block length (used three times already, do NOT use visit_children of member-less levels again); size_bytes_checked_visitor::set_group_block_length returning the new value so the parent block length is not restored (a size_bytes_checked matter; pick something that affects getters / size_bytes / cursors / visit instead)",
  "C04": "nested group cursor_subrange(c, pos) passing size() as the length; the cursor accessors' running offset ignoring the gap of a custom offset on a built-in-typed field; using the field's own presence attribute when deciding whether an entry is constant-only; input_iterator::operator* in the release (#else) branch passing cursor->pointer() so that the member-less entry constructor no longer advances the cursor",
  "C05": "typing the trait-level size_bytes count parameters with the blockLength type; locating the 3rd+ <data> member after the first data member; the nested-group header term of group_traits::size_bytes using the parent dimension size",
  "C06": "saving the parent group's block length after it was overwritten in size_bytes_checked's on_group; member-less visit_children advancing with += block_length; an early-out in on_group when the wire blockLength is 0; the up-front header-room guard size < header_size turned into <=",
  "C07": "the 'previous view' lambda calling NAME() unqualified so that a member named like a local clashes; registering the <data> include dependency under the reference's spelling instead of the composite's name; the <group>_entry clash check of names_generator looking in the wrong name set",
  "C08": "value_fits_into_type parsing uint32 as uint64; is_sbe_symbolic_name skipping the first character; treating an explicit offset=0 on a composite element as absent (value_or(0))",
  "C09": "validate_data_header consulting the group-header cache; passing the include chain to the nested parser with std::move; get_actual_presence no longer forcing set-typed fields to required, so a constant set field reaches unordered_map::at",
- "C10": "re-introducing sizeof(length)+size() overflow in dynamic_array_ref::data_checked; static_array_ref::raw() dropping the end pointer; SBEPP_SIZE_CHECK testing begin < end instead of <=",
- "C11": "guarding the last-enum / last-set cursor setter with cursor_compatible instead of cursor_writeable (pick something that is NOT a cursor setter guard)",
- "C12": "casting the block length to the group's difference_type in the iterator's operator+=; building end() as begin()+difference_type(size())",
- "C13": "erase(first,last) copying new_size elements instead of the tail; resize(count,value) filling count elements from the old end; insert(pos,count,value) shifting the tail with a forward std::copy (visible only in constant evaluation)",
- "C14": "the constant-evaluation branch of string_length counting the terminator; pad() skipping the single NUL when exactly one element is left",
- "C15": "casting after the shift (static_cast<T>(b << n) / static_cast<T>(1 << n)) in the choice setter or getter",
- "C16": "rewriting <=, >, >= of pre-C++20 optionals in terms of <; treating every NaN as null for floating-point optionals",
- "C17": "filling a group's numVarDataFields with the nested group count; typing fill_group_header's count parameter with the blockLength type",
+ "C10": "re-introducing sizeof(length)+size() overflow in dynamic_array_ref::data_checked; static_array_ref::raw() dropping the end pointer; SBEPP_SIZE_CHECK testing begin < end instead of <=; cursor::set_last_value checking against the view start instead of the cursor pointer",
+ "C11": "guarding the last-enum / last-set cursor setter with cursor_compatible instead of cursor_writeable (pick something that is NOT a cursor setter guard); the cursor getter of non-first groups returning a view typed with the message byte type instead of the cursor byte type",
+ "C12": "casting the block length to the group's difference_type in the iterator's operator+=; building end() as begin()+difference_type(size()); ordering operators of random_access_iterator defined through the signed difference",
+ "C13": "erase(first,last) copying new_size elements instead of the tail; resize(count,value) filling count elements from the old end; insert(pos,count,value) shifting the tail with a forward std::copy (visible only in constant evaluation); assign_string(const char*) copying the terminating NUL as well",
+ "C14": "the constant-evaluation branch of string_length counting the terminator; pad() skipping the single NUL when exactly one element is left; assign(first,last) calling std::distance before the copy (breaks single-pass iterators)",
+ "C15": "casting after the shift (static_cast<T>(b << n) / static_cast<T>(1 << n)) in the choice setter or getter; operator== comparing *lhs == *lhs",
+ "C16": "rewriting <=, >, >= of pre-C++20 optionals in terms of <; treating every NaN as null for floating-point optionals; operator<=> comparing two nulls by representation (NaN <=> NaN)",
+ "C17": "filling a group's numVarDataFields with the nested group count; typing fill_group_header's count parameter with the blockLength type; ref-typed numGroups/numVarDataFields no longer recognised as counters",
  "C18": "set choice since_version taken from the enclosing set; type_traits of the built-in optional types reporting presence required; a wrong row (float max for double) in the default min/max/null literal tables of types_compiler",
- "C19": "member-less visit_children advancing the cursor with += block_length; visit_children of a composite reporting constant members; the generated by-tag accessor taking its argument pack by value so that a plain cursor is copied",
- "C20": "write_file checking only operator<< and letting the destructor close the file; write_file checking only rdbuf()->close()",
+ "C19": "member-less visit_children advancing the cursor with += block_length; visit_children of a composite reporting constant members; the generated by-tag accessor taking its argument pack by value so that a plain cursor is copied; composite visit_children joined with | instead of ||",
+ "C20": "write_file checking only operator<< and letting the destructor close the file; write_file checking only rdbuf()->close(); write_file skipping files whose existing content starts with the new content",
 }
 
 p = [json.loads(l) for l in open('/verif/properties.jsonl') if json.loads(l)['id'] == pid][0]
